@@ -271,7 +271,8 @@ Definition chk_c17_call (st : k17) (o : cop) (q : N) (faulted : bool) (script : 
              else match ws with [] => cres_eqb r ROk | _ => false end))
   | OGetRules =>
       (* the rules handed out are the kernel's payloads, also after later traffic reused the receive buffer *)
-      (st, negb cl && match spec_ack q script with
+      (st, negb cl && if faulted then true else
+                      match spec_ack q script with
                       | VAck e rest => if Z.eqb e 0 then match spec_rules (S (length rest)) q rest [] with
                                                          | Some (Some (rules, _)) => cres_eqb r (RRules rules) | _ => true end else true
                       | _ => true end)
